@@ -3,6 +3,8 @@
 package origin
 
 import (
+	"crypto/sha1"
+	"fmt"
 	"io"
 	"net"
 	"net/http"
@@ -85,6 +87,13 @@ func (s *Server) handle(w http.ResponseWriter, r *http.Request) {
 	}
 	switch b.Kind {
 	case "body":
+		// like any static file server: an entity tag, and 304 for a conditional request that names it
+		etag := fmt.Sprintf("\"%x\"", sha1.Sum(b.Body))
+		w.Header().Set("ETag", etag)
+		if inm := r.Header.Get("If-None-Match"); inm != "" && inm == etag {
+			w.WriteHeader(http.StatusNotModified)
+			return
+		}
 		w.Write(b.Body)
 	case "gated":
 		w.Header().Set("Content-Length", strconv.Itoa(len(b.Body)))
